@@ -140,14 +140,26 @@ def is_field_of(t, adt_suffix, idx):
     return isinstance(t, tuple) and len(t) == 4 and t[0] == 'f' and t[2] == idx and isinstance(t[3], str) and (t[3] == adt_suffix or t[3].endswith('::' + adt_suffix))
 
 
+class CondList(list):
+    """[(atom, value)] plus, in .at, the number of events recorded when each condition was assumed."""
+    def __init__(self, owner, items=(), at=()):
+        list.__init__(self, items)
+        self.owner = owner
+        self.at = list(at)
+
+    def append(self, x):
+        list.append(self, x)
+        self.at.append(len(self.owner.events))
+
+
 class State:
     __slots__ = ('env', 'store', 'conds', 'events', 'visits', 'ctr', 'epoch', 'ended', 'ret', 'depth', 'notes')
 
     def __init__(self):
         self.env = {}
         self.store = {}
-        self.conds = []      # [(atom, value)]  value: bool for bool atoms, int for ('discr', x); ('ne', v) for excluded discriminants
         self.events = []
+        self.conds = CondList(self)      # [(atom, value)]  value: bool for bool atoms, int for ('discr', x); ('ne', v) for excluded discriminants
         self.visits = {}
         self.ctr = [0]
         self.epoch = 0
@@ -160,8 +172,8 @@ class State:
         s = State()
         s.env = dict(self.env)
         s.store = dict(self.store)
-        s.conds = list(self.conds)
         s.events = list(self.events)
+        s.conds = CondList(s, self.conds, self.conds.at)
         s.visits = dict(self.visits)
         s.ctr = self.ctr          # shared counter: fresh names stay unique across forks
         s.epoch = self.epoch
@@ -1322,6 +1334,10 @@ MODELS['core::slice::<impl [T]>::iter_mut'] = lambda E, st, f, a, k, e: k(st, ('
 
 def _two_way(E, st, it, k_empty, k_elem):
     """empty iteration | one symbolic iteration"""
+    if isinstance(it, tuple) and it[0] == 'r':
+        inner = E.read(st, it[1])
+        if isinstance(inner, tuple) and inner[0] == 'it':
+            it = inner
     s2 = st.clone()
     s2.conds.append((('nonempty', it), False))
     k_empty(s2)
